@@ -117,6 +117,9 @@ package handler
 //@   ensures [real-headers-touched-only-when-finished] ret(Get) != "websocket" ==> (calls(ErrorCtx) == 1 ==> calls(w.Header) == 0) && (finished ==> calls(w.Header) == 1 && before(locked, w.Header))
 //@   ensures [one-outcome] ret(Get) != "websocket" ==> calls(Bytes) + calls(ErrorCtx) == 1 && calls("go (*timeoutHandler).ServeHTTP$1") == 1
 //@   ensures [context-released] ret(Get) != "websocket" ==> calls(cancelCtx) == 1
+// "for every request": the deadline applies whatever headers the client sends (the code exempts every request that
+// carries `Upgrade: websocket` - see the known finding on this clause; it is the last clause of the function)
+//@   ensures [every-request-is-under-the-deadline] calls("go (*timeoutHandler).ServeHTTP$1") == 1 && calls(cancelCtx) == 1
 
 // MaxConns: a request runs the handler only while holding a slot, which is returned exactly once (also on
 // panic); a rejected request gets 503 and neither runs the handler nor returns a slot it never had.
